@@ -28,6 +28,13 @@ static std::shared_ptr<DM> make_dm(const crsd &A, const part &rp, const part &cp
     dv::strip s = dv::take_rows(A, rp[R], rp[R + 1]);
     return std::make_shared<DM>(comm, std::tie(s.n, s.ptr, s.col, s.val), (ptrdiff_t)(cp[R + 1] - cp[R]));
 }
+// operations on the KEPT source after move_to_backend(bprm, keep_src = true) (the allow_rebuild path of mpi::amg)
+static bool MOVED = false;
+static std::shared_ptr<DM> make_dm_m(const crsd &A, const part &rp, const part &cp) {
+    auto D = make_dm(A, rp, cp);
+    if (MOVED) D->move_to_backend(BD::params(), true);
+    return D;
+}
 static std::vector<double> slice(const std::vector<double> &g, const part &p) { return std::vector<double>(g.begin() + p[R], g.begin() + p[R + 1]); }
 static std::vector<double> rand_vec(vr::rng &g, int n, int vmax = 3) { std::vector<double> v(n); for (auto &x : v) x = g.range(-vmax, vmax); return v; }
 
@@ -48,7 +55,7 @@ static std::string gather_named(const lists &L) {
 struct rec {
     vr::obj o; bool ok = true;
     rec(const char *k, const char *tag, const crsd &A, const part &rp, const part &cp) {
-        o.str("k", k).str("tag", tag).i("case", CASEID).i("np", NP).ints("rp", rp).ints("cp", cp);
+        o.str("k", k).str("tag", tag).i("case", CASEID).i("np", NP).ints("rp", rp).ints("cp", cp).b("moved", MOVED);
         bool ex = true; o.raw("A", vr::crs_json(A, ex)); if (!ex) ok = false;
     }
     void put() {
@@ -119,7 +126,7 @@ static void op_inner(vr::rng &g, const char *tag, const crsd &A, const part &rp,
 }
 
 static void op_transpose(const char *tag, const crsd &A, const part &rp, const part &cp) {
-    auto D = make_dm(A, rp, cp);
+    auto D = make_dm_m(A, rp, cp);
     begin_op();
     auto T = mpi::transpose(*D);
     end_op("transpose");
@@ -129,8 +136,8 @@ static void op_transpose(const char *tag, const crsd &A, const part &rp, const p
 }
 
 static void op_product(const char *tag, const crsd &A, const part &rp, const part &cp, const crsd &B, const part &cq) {
-    auto D = make_dm(A, rp, cp);
-    auto E = make_dm(B, cp, cq);
+    auto D = make_dm_m(A, rp, cp);
+    auto E = make_dm_m(B, cp, cq);
     begin_op();
     auto C = mpi::product(*D, *E);
     end_op("product");
@@ -170,7 +177,7 @@ static void op_scale_sort(vr::rng &g, const char *tag, const crsd &A, const part
 }
 
 static void op_copy(vr::rng &g, const char *tag, const crsd &A, const part &rp, const part &cp) {
-    auto D = make_dm(A, rp, cp);
+    auto D = make_dm_m(A, rp, cp);
     begin_op();
     DMF F(*D);                 // copy to another backend (float values: integers stay exact)
     DM  G(F);                  // and back
@@ -213,6 +220,30 @@ static void op_spectral(vr::rng &g, const char *tag, const crsd &A, const part &
     q.put();
 }
 
+// move_to_backend(bprm, keep_src = true) must leave the kept local / remote blocks untouched: they
+// still describe the same global matrix, and transpose / product / remote_rows / a copy to another
+// backend taken from them afterwards equal the serial operation
+static bool kept_intact(const char *tag, const crsd &A, const part &rp, const part &cp) {
+    auto D = make_dm_m(A, rp, cp);
+    rec r("kept", tag, A, rp, cp);
+    r.o.raw("D", dv::gather_dm(*D, A.ncols, r.ok)); r.put();
+    // the harness' own look at the kept remote column ids: the follow-up operations are only run on
+    // intact sources (on a corrupted one some ranks may throw or run out of bounds while the others wait)
+    std::vector<ptrdiff_t> want;
+    for (int i = rp[R]; i < rp[R + 1]; ++i) for (ptrdiff_t j = A.ptr[i]; j < A.ptr[i + 1]; ++j) if (!(cp[R] <= A.col[j] && A.col[j] < cp[R + 1])) want.push_back(A.col[j]);
+    const auto &Rm = *D->remote();
+    return dv::all_ok(want.size() == Rm.nnz && std::equal(want.begin(), want.end(), Rm.col));
+}
+static void op_kept(vr::rng &g, const char *tag, const crsd &A, const part &rp, const part &cp, const crsd &B, const part &cq) {
+    MOVED = true;
+    try {
+        bool a = kept_intact(tag, A, rp, cp), b = kept_intact(tag, B, cp, cq);
+        if (a) { op_transpose(tag, A, rp, cp); op_copy(g, tag, A, rp, cp); }
+        if (a && b) op_product(tag, A, rp, cp, B, cq);
+    } catch (...) { MOVED = false; throw; }
+    MOVED = false;
+}
+
 static void all_ops(vr::rng &g, const char *tag, const crsd &A, const part &rp, const part &cp, const crsd &B, const part &cq, int level) {
     ++CASEID;
     GUARD(op_build(tag, A, rp, cp));
@@ -225,6 +256,7 @@ static void all_ops(vr::rng &g, const char *tag, const crsd &A, const part &rp, 
         GUARD(op_inner(g, tag, A, rp, cp));
         GUARD(op_scale_sort(g, tag, A, rp, cp));
         GUARD(op_copy(g, tag, A, rp, cp));
+        GUARD(op_kept(g, tag, A, rp, cp, B, cq));
     }
 }
 
